@@ -32,6 +32,10 @@ pub trait Chunky: Clone + Send + Sync + 'static {
     fn has_merge() -> bool {
         true
     }
+    /// the empty estimator built through `Default` (same as `fresh()` unless overridden)
+    fn dflt_() -> Self {
+        Self::fresh()
+    }
 }
 
 #[derive(Debug)]
@@ -157,19 +161,24 @@ impl<T: Chunky> Check for IntervalCheck<T> {
                     let mut found = Vec::new();
                     let mut outcomes = HashSet::new();
                     let word_json = || Value::Array(items.iter().map(|i| T::item_json(i)).collect());
+                    // per word, keep one artefact per violation signature (a broken merge can make
+                    // every state of every word a violation; memory must stay bounded)
+                    let mut sigs_seen: HashSet<String> = HashSet::new();
                     let mut push = |cand: Result<T, String>, prov: Arc<Prov>, nodes: &mut Vec<Node<T>>, found: &mut Vec<(Violation, Value)>| {
                         match cand {
-                            Err(m) => found.push((
+                            Err(m) => if sigs_seen.insert(format!("{}.merge:panic", T::NAME)) { found.push((
                                 Violation { sig: format!("{}.merge:panic", T::NAME), detail: format!("{}: merge/collect panicked: {m}", T::NAME) },
                                 json!([{"word": word_json()}, {"tree": prov.json(0)}]),
-                            )),
+                            )) },
                             Ok(s) => {
                                 let k = s.dbg();
                                 if seen.insert(k) {
                                     let obs = s.observe_();
                                     outcomes.insert(obs.fingerprint());
                                     for v in (self.judge)(&items, &obs) {
-                                        found.push((v, json!([{"word": word_json()}, {"tree": prov.json(0)}])));
+                                        if sigs_seen.insert(v.sig.clone()) {
+                                            found.push((v, json!([{"word": word_json()}, {"tree": prov.json(0)}])));
+                                        }
                                     }
                                     nodes.push(Node { st: s, prov });
                                 }
@@ -218,6 +227,10 @@ impl<T: Chunky> Check for IntervalCheck<T> {
                         // in the tree); two rounds suffice unless the identity law is broken
                         let empties = &r[&Vec::new()];
                         for _round in 0..2 {
+                            if nodes.len() >= self.cap_per_word {
+                                capped = true;
+                                break;
+                            }
                             let snapshot: Vec<Node<T>> = nodes.clone();
                             let before = nodes.len();
                             for a in snapshot.iter() {
@@ -325,7 +338,8 @@ impl<T: Chunky> Spec for ChunkAddSpec<T> {
         format!("{}/add/{}/{}", self.prop, T::NAME, self.alpha_name)
     }
     fn init(&self) -> Vec<CState<T>> {
-        vec![CState { est: Ok(T::fresh()), items: vec![] }]
+        // new() and Default::default() (deduplicated when they are the same state)
+        vec![CState { est: Ok(T::fresh()), items: vec![] }, CState { est: Ok(T::dflt_()), items: vec![] }]
     }
     fn check_init(&self, s: &CState<T>) -> Vec<Violation> {
         match &s.est {
